@@ -1,0 +1,144 @@
+// Copyright (c) 2026 10X Genomics, Inc. All rights reserved.
+
+//go:build verif
+
+package core
+
+import (
+	"encoding/hex"
+	"fmt"
+	"os"
+	"path"
+	"sort"
+	"strconv"
+	"strings"
+
+	"github.com/martian-lang/martian/martian/syntax"
+)
+
+// Exports for the external verification harness (property C10): fork ids in
+// the part notation of the Lean model Martian.ForkOrder (i<n> = array index,
+// k<hex of the key bytes> = map key, u = undetermined, e = empty; the parts
+// of one fork joined by `+`).  This file is only compiled with `-tags verif`.
+
+func verifC10PartString(p *ForkSourcePart) string {
+	switch id := p.Id.(type) {
+	case arrayIndexFork:
+		if int(id) < 0 {
+			return "i-" + strconv.Itoa(-int(id))
+		}
+		return "i" + strconv.Itoa(int(id))
+	case mapKeyFork:
+		return "k" + hex.EncodeToString([]byte(string(id)))
+	case emptyFork:
+		return "e"
+	case undeterminedFork:
+		return "u"
+	default:
+		return fmt.Sprintf("?%T", p.Id)
+	}
+}
+
+func verifC10ForkString(id ForkId) string {
+	parts := make([]string, len(id))
+	for i, p := range id {
+		parts[i] = verifC10PartString(p)
+	}
+	return strings.Join(parts, "+")
+}
+
+func verifC10Roots(roots syntax.ForkRootList) []string {
+	r := make([]string, len(roots))
+	for i, root := range roots {
+		r[i] = root.Call().Id
+	}
+	return r
+}
+
+// VerifC10CompiledForkParts compiles src and returns, for the call graph
+// node with the given fqid suffix, the ids of the calls which are its fork
+// roots (in order) and the fork ids which the real ForkIdSet.MakeForkIds
+// lists, in list order, in part notation.
+func VerifC10CompiledForkParts(src, fqid string) (roots []string, forks []string, err error) {
+	defer func() {
+		if r := recover(); r != nil {
+			err = fmt.Errorf("panic: %v", r)
+		}
+	}()
+	_, _, ast, err := syntax.ParseSourceBytes([]byte(src), "verif.mro", nil, false)
+	if err != nil {
+		return nil, nil, err
+	}
+	if ast.Call == nil {
+		return nil, nil, fmt.Errorf("no call")
+	}
+	graph, err := ast.MakeCallGraph("", ast.Call)
+	if err != nil {
+		return nil, nil, err
+	}
+	node := graph.NodeClosure()[fqid]
+	if node == nil {
+		return nil, nil, fmt.Errorf("no node %s", fqid)
+	}
+	var set ForkIdSet
+	set.MakeForkIds(node.ForkRoots(), &ast.TypeTable)
+	for _, id := range set.List {
+		forks = append(forks, verifC10ForkString(id))
+	}
+	return verifC10Roots(node.ForkRoots()), forks, nil
+}
+
+// VerifC10NodeForkParts returns the fork roots and the fork ids of
+// Node.forks of node fqid of a pipestance, in part notation.
+func (self *Pipestance) VerifC10NodeForkParts(fqid string) (roots []string, forks []string, err error) {
+	n := self.getNode().top.allNodes[fqid]
+	if n == nil {
+		return nil, nil, fmt.Errorf("no node %s", fqid)
+	}
+	for _, f := range n.forks {
+		forks = append(forks, verifC10ForkString(f.forkId))
+	}
+	return verifC10Roots(n.call.ForkRoots()), forks, nil
+}
+
+// VerifC10ExpandForkParts writes outs[node fqid] as the _outs file of the
+// first fork of each named node, calls the real Node.expandForks(true) on the
+// node fqid and returns the fork ids of Node.forks in part notation.
+func (self *Pipestance) VerifC10ExpandForkParts(outs map[string][]byte,
+	fqid string) (forks []string, err error) {
+	defer func() {
+		if r := recover(); r != nil {
+			err = fmt.Errorf("panic: %v", r)
+		}
+	}()
+	all := self.getNode().top.allNodes
+	names := make([]string, 0, len(outs))
+	for k := range outs {
+		names = append(names, k)
+	}
+	sort.Strings(names)
+	for _, k := range names {
+		n := all[k]
+		if n == nil || len(n.forks) == 0 {
+			return nil, fmt.Errorf("no node with a fork: %s", k)
+		}
+		f := n.forks[0]
+		if err := os.MkdirAll(f.metadata.path, 0o755); err != nil {
+			return nil, err
+		}
+		f.metadata.uncache(OutsFile)
+		if err := os.WriteFile(path.Join(f.metadata.path, "_outs"),
+			outs[k], 0o644); err != nil {
+			return nil, err
+		}
+	}
+	n := all[fqid]
+	if n == nil {
+		return nil, fmt.Errorf("no node %s", fqid)
+	}
+	n.expandForks(true)
+	for _, f := range n.forks {
+		forks = append(forks, verifC10ForkString(f.forkId))
+	}
+	return forks, nil
+}
